@@ -362,6 +362,30 @@ def rewrite (pos : Int) (p : Bytes) (buf : Bytes) : Option Bytes :=
 
 def rewriteU32 (pos : Int) (v : UInt32) (buf : Bytes) : Option Bytes := rewrite pos (leBytes 4 v.toNat) buf
 
+/-- `ReWrite(pos, Bytes()[from:to])`: the payload is a window of the buffer itself. Go's `copy` is a memmove, so the
+    bytes written are the OLD contents of the window even where source and destination overlap. -/
+def rewriteSelf (pos : Int) (frm to : Nat) (buf : Bytes) : Option Bytes :=
+  rewrite pos ((buf.take to).drop frm) buf
+
+/-! ### long values: pattern bytes and the digest the protocol prints for them -/
+
+/-- byte `i` of the pattern `p<seed>:<n>` -/
+def patByte (seed i : Nat) : UInt8 := UInt8.ofNat ((seed + 131 * i + 7 * (i / 256)) % 256)
+
+def pat (seed n : Nat) : Bytes := (List.range n).map (patByte seed)
+
+def digestStep (h : Nat) (b : UInt8) : Nat := (h * 31 + b.toNat + 1) % 4294967296
+
+/-- the digest printed for byte strings longer than 64 bytes -/
+def digest (bs : Bytes) : Nat := bs.foldl digestStep 0
+
+/-- the digest of a pattern computed index by index, without building the list (`k` bytes from index `i` on) -/
+def digestPatLoop (seed : Nat) : Nat → Nat → Nat → Nat
+  | 0, _, h => h
+  | k+1, i, h => digestPatLoop seed k (i + 1) (digestStep h (patByte seed i))
+
+def digestPat (seed n : Nat) : Nat := digestPatLoop seed n 0 0
+
 /-! ### stream source and ReaderX -/
 
 /-- an `io.Reader`: the chunks it will deliver; `eager` = it returns `io.EOF` together with the last bytes -/
